@@ -21,6 +21,7 @@ CONSTANTS
   DefectOdds = 3
   Salts = {0, 1, 2, 3, 4, 5}
   DefaultLast = FALSE
+  BareMaps = TRUE
   PrintExpected = TRUE
 CHECK_DEADLOCK FALSE
 INVARIANT TheoremsHold
